@@ -4,7 +4,7 @@
 #   (4) demo PASSES without it. Writes verify.json next to the patch. Scratch worktree: /tmp/seedverify (kept between
 #   calls for incremental builds; remove with: git -C /repo worktree remove --force /tmp/seedverify).
 set -u
-W=/tmp/seedverify
+W=${SEED_VERIFY_W:-/tmp/seedverify}   # SEED_VERIFY_W=<dir>: several verifications in parallel, one scratch worktree each
 DIRS=(); for a in "$@"; do DIRS+=("$(realpath "$a")"); done
 EXPECTED="test bitmap::cbdt::tests::test_lookup_cblc ... FAILED
 test font::tests::test_glyph_names ... FAILED
@@ -30,11 +30,11 @@ for D in "${DIRS[@]}"; do
   demo_with=$(echo "$out" | grep -E "^test .* \.\.\. FAILED" | grep -v -F "$EXPECTED" | sort -u)
   # failures outside the demo test binary: run the suite list minus demo
   FEAT=""; grep -q -- "--features prince" "$D/meta.json" && FEAT="--features prince"
-  cargo test --offline $FEAT --test seeded_demo > /tmp/seedverify_demo.log 2>&1; rc_with=$?
-  demo_tests_failed=$(grep -E "^test .* FAILED" /tmp/seedverify_demo.log | sort -u)
+  cargo test --offline $FEAT --test seeded_demo > $W.demo.log 2>&1; rc_with=$?
+  demo_tests_failed=$(grep -E "^test .* FAILED" $W.demo.log | sort -u)
   other=$(echo "$demo_with" | grep -v -F "$demo_tests_failed" | grep -v '^$')
   git checkout -q -- . 
-  cargo test --offline $FEAT --test seeded_demo > /tmp/seedverify_demo2.log 2>&1; rc_without=$?
+  cargo test --offline $FEAT --test seeded_demo > $W.demo2.log 2>&1; rc_without=$?
   rm -f tests/seeded_demo.rs
   ok=true; [ $rc_with -ne 0 ] || ok=false; [ $rc_without -eq 0 ] || ok=false; [ -z "$other" ] || ok=false
   python3 - "$D" "$rc_with" "$rc_without" "$other" "$ok" "$(git -C $W rev-parse --short HEAD)" <<'PY'
